@@ -15,6 +15,7 @@ git -C /repo worktree add -q --detach $WT HEAD >> $LOG 2>&1 || exit 2
 cd $WT
 PYTHONPATH=$WT/src timeout 1200 /venv/bin/python $D/demo.py > $D/demo_unchanged.out 2>&1; RC0=$?
 git apply $D/patch.diff >> $LOG 2>&1 || { echo APPLY-FAILED >> $LOG; git -C /repo worktree remove --force $WT; exit 3; }
+rm -f $WT/src/scenic/syntax/parser.py   # generated file: rebuild it from the (possibly changed) grammar
 PYTHONPATH=$WT/src timeout 1200 /venv/bin/python $D/demo.py > $D/demo_changed.out 2>&1; RC1=$?
 TESTS="$*"
 if [ -n "$TESTS" ]; then
